@@ -79,9 +79,13 @@ def handle (line : String) : String :=
           | _ => false
       let jC08 := b2s (jC08a && jC08b)
       let iRe := (sect secs "REPARSE").bind readOutcome
+      -- C15 speaks of the comments and docstrings IN THE FILE: where the language (the model's parse of the input) says
+      -- what they are, that is the "before" — a front end that drops a comment before the formatter ever sees it has
+      -- not kept it; where the input is not a spokfile of the language, the implementation's own tree is all there is
+      let before15 (t : Tree) : Tree := match mOut with | .ok mt => mt | _ => t
       let (jC07, jC15) := match iOut with
         | some (.ok t) => (match iRe with
-            | some o => (b2s (c07 t o), b2s (c15 t o))
+            | some o => (b2s (c07 t o), b2s (c15 (before15 t) o))
             | none => ("FAIL", "FAIL"))
         | _ => ("na", "na")
       let jC11 := match iOut with
